@@ -113,7 +113,27 @@ class C16Oracle(Oracle):
         if theirs != m.s:
             self.fail(name, f"convertFromBytes-differs/w{m.width}", {"theirs": theirs[:8], "model": m.s[:8]})
 
+    def _heap_wide(self, run, out):
+        """every live Wav - not only the one operated on - still has its own samples, duration and
+        parameters (objects built from another Wav's params must stay independent)"""
+        for hh, m in self.m.items():
+            o = run.world.heap.get(hh)
+            if not isinstance(o, audio.Wav) or o is out.recv or o is out.result:
+                continue
+            if len(m.s) <= 2000 and dec_samples(o.frames, m.width) != m.s:
+                self.fail(out.op.name, f"bystander-samples-changed/w{m.width}", {"handle": hh})
+            if not math.isclose(o.duration, len(m.s) / m.rate, rel_tol=1e-12, abs_tol=0.0):
+                self.fail(out.op.name, f"bystander-duration-changed/w{m.width}",
+                          {"handle": hh, "real": o.duration, "model": len(m.s) / m.rate})
+            if (o.nchannels, o.sampleWidth, o.frameRate) != (1, m.width, m.rate):
+                self.fail(out.op.name, f"bystander-params-changed/w{m.width}", {"handle": hh})
+
     def after(self, run, out):
+        self._after(run, out)
+        if out.op.kind != "env":
+            self._heap_wide(run, out)
+
+    def _after(self, run, out):
         name = out.op.name
         step = out.step
         h = step.get("recv")
@@ -123,6 +143,16 @@ class C16Oracle(Oracle):
                 self.fail(name, "ctor-raised", {"exc": repr(out.exc)})
             w, rate = out.args[1][1], out.args[1][2]
             m = WavModel(dec_samples(out.args[0], w), w, rate)
+            self.m[step["out"]] = m
+            self._check_buffer(run, out, out.result, m, how)
+            return
+        if name == "Wav.like":
+            src = self.m.get(out.step["a"][1]["$h"])
+            if src is None:
+                return
+            if not out.ok:
+                self.fail(name, "ctor-raised", {"exc": repr(out.exc)})
+            m = WavModel(dec_samples(out.args[0], src.width), src.width, src.rate)
             self.m[step["out"]] = m
             self._check_buffer(run, out, out.result, m, how)
             return
@@ -340,9 +370,14 @@ def generate(run, rng):
     def frames(maxn=12):
         return {"$b": enc_samples(_samples(rng, width, rng.randrange(0, maxn + 1)), width).hex()}
 
-    mk_wav()
+    h0 = mk_wav()
     if rng.random() < 0.3:
-        mk_wav()
+        if rng.random() < 0.5:
+            mk_wav()
+        else:
+            n2 = rng.randrange(0, min(cfg["nmax"], 400) + 1)
+            run.do({"op": "Wav.like", "a": [{"$b": enc_samples(_samples(rng, width, n2), width).hex()}, H(h0)],
+                    "out": w.new_handle()})
     fileno = 0
     for _ in range(cfg["steps"]):
         wavs = w.live(audio.Wav)
